@@ -39,10 +39,8 @@ def main():
             patch = os.path.join(d, "patch.diff")
             if not os.path.exists(patch):
                 continue
-            sh("git checkout -q -- . && git clean -fdq httpcore scripts", WT)
+            sh("git reset -q --hard HEAD && git clean -fdq httpcore scripts", WT)
             rc, o = sh(f"git apply {patch}", WT)
-            if rc != 0:
-                rc, o = sh(f"git apply --3way {patch}", WT)
             if rc != 0:
                 print(f"{sid}: patch does not apply to HEAD")
                 summary.append((sid, "patch-does-not-apply"))
